@@ -233,9 +233,37 @@ func (seg *Segmenter) splitByBidi(text Input) {
 				break
 			}
 		}
-		seg.splitParagraphByBidi(text, start, end, def, firstOutput)
+		if def == bidi.LeftToRight && !mayHaveRightToLeft(text.Text[start:end]) {
+			// no rune can start a right to left run (nor change the embedding level):
+			// the paragraph is one left to right run. This also avoids the cost of
+			// bidi.Paragraph.Order, quadratic on long stretches of digits.
+			run := text
+			run.RunStart, run.RunEnd = start, end
+			run.Direction.SetProgression(di.FromTopLeft)
+			if L := len(seg.output); L > firstOutput && seg.output[L-1].Direction == run.Direction {
+				seg.output[L-1].RunEnd = end
+			} else {
+				seg.output = append(seg.output, run)
+			}
+		} else {
+			seg.splitParagraphByBidi(text, start, end, def, firstOutput)
+		}
 		start = end
 	}
+}
+
+// mayHaveRightToLeft returns false if the bidi classes of the runes can only
+// produce the embedding level 0
+func mayHaveRightToLeft(text []rune) bool {
+	for _, r := range text {
+		props, _ := bidi.LookupRune(r)
+		switch props.Class() {
+		case bidi.L, bidi.EN, bidi.ES, bidi.ET, bidi.CS, bidi.NSM, bidi.BN, bidi.B, bidi.S, bidi.WS, bidi.ON:
+		default:
+			return true
+		}
+	}
+	return false
 }
 
 // splitParagraphByBidi handles the paragraph text.Text[start:end], appending to the runs
